@@ -285,7 +285,28 @@ fn run_e2e(
     sig: &mut crate::tape::Digest,
 ) -> serde_json::Value {
     let byz = w.lock().unwrap().cfg.byz_permille > 0;
-    let res = resolve_once(w, tir_tx, args, comp, max_rounds, cancel_after);
+    // one resolution in six hands the real instance to the resolver without the recording wrapper
+    // (which only forwards the trait methods it knows): the round-level oracles are silent then, the
+    // outcome-level ones (crash, decode, well-formedness, balance, echo) judge as usual
+    let plain = comp.fail_compile_at.is_none() && comp.fail_op_at.is_none() && w.lock().unwrap().tape.chance(1, 6);
+    let res = if plain {
+        let (outcome, polls) = resolve_plain(w, tir_tx, args, &mut comp.inner, max_rounds, cancel_after);
+        comp.overrun = false;
+        let g = w.lock().unwrap();
+        let r = Resolution {
+            outcome,
+            rounds: vec![],
+            polls,
+            calls: g.res_calls,
+            faults: g.res_faults,
+            moved: g.ledger_moved,
+        };
+        drop(g);
+        w.lock().unwrap().fire("no-wrapper");
+        r
+    } else {
+        resolve_once(w, tir_tx, args, comp, max_rounds, cancel_after)
+    };
     if comp.overrun {
         rep.violate(
             "C14",
@@ -423,9 +444,11 @@ fn run_e2e(
                     check_repro(rep, pp, &last.tir, c, s1, s2, ctx);
                 }
             }
-            let facts = check_fee(rep, pp, max_rounds, &res.rounds, c, &d, ctx);
-            if facts.cap_reached && !facts.converged {
-                rep.probe("round-cap-without-convergence");
+            if !plain {
+                let facts = check_fee(rep, pp, max_rounds, &res.rounds, c, &d, ctx);
+                if facts.cap_reached && !facts.converged {
+                    rep.probe("round-cap-without-convergence");
+                }
             }
             if res.rounds.len() >= 2 {
                 let a = bindings_of(&res.rounds[0].tir);
